@@ -288,6 +288,9 @@ def curated():
         S("ZA", [("tag", "u8"), ("arr", "[u16; 2]"), ("val", "u32")], ZC),
         S("ZB", [("a", "u8"), ("t", "(u16, u16)"), ("c", "u64"), ("e", "EU"), ("z", "u8")], ZC),
         S("ZR", [("a", "u16"), ("r", "RangeTo<u32>"), ("arr", "[P1; 2]"), ("b", "u8")], ZC),
+        S("ZT3", [("a", "u8"), ("r", "RangeTo<T3>")], ZC),
+        S("NT16", [("0", "u64")], ("repr(C)", "repr(align(16))", "zero_copy"), style="tuple"),
+        E("EW12", [V("W", "tuple", [(str(i), t) for i, t in enumerate(["u8", "u16", "u32", "u64", "i8", "i16", "i32", "i64", "u8", "u16", "u32", "u64"])]), V("N", "unit", [])]),
         S("ZN", [("p", "P1"), ("t", "T3"), ("f", "f64"), ("arr", "[u16; 3]"), ("ph", "PhantomData<u8>")], ZC),
         E("EZ", [V("A", "unit", []), V("B", "tuple", [("0", "u16")]), V("C", "named", [("x", "u8"), ("y", "u64")])], ZC),
         E("EU", [V("North", "unit", []), V("South", "unit", []), V("East", "unit", [])], ZC),
@@ -321,4 +324,10 @@ def curated():
           params=[P("A", "field"), P("B", "field", default="Vec<u8>")]),
         E("GEI", [V("V", "tuple", [("0", "Vec<I>")]), V("O", "named", [("o", "Option<I>"), ("k", "u32")])],
           params=[P("I", "internal", bound="DeepCopy + 'static")]),
+        # parameter-typed fields BEFORE fields of other types, in every variant style
+        E("GV", [V("P", "tuple", [("0", "A"), ("1", "u64")]), V("Q", "named", [("data", "A"), ("n", "usize")]), V("R", "tuple", [("0", "u8"), ("1", "A"), ("2", "u16")]), V("U", "unit", [])],
+          params=[P("A", "field")]),
+        S("GPR", [("first", "A"), ("mid", "u32"), ("second", "A")], params=[P("A", "field")]),
+        E("GEC", [V("X", "tuple", [("0", "A")]), V("Y", "tuple", [("0", "[u8; N]")])], params=[P("A", "field"), P("N", "const", default="4")]),
+        S("GCF", [("arr", "[u16; N]"), ("a", "A")], params=[P("N", "const"), P("A", "field")]),
     ]
